@@ -22,7 +22,7 @@ import (
 func pairSelectors() []string {
 	keys := []string{"a", "b"}
 	types := []string{"=", "!=", "=~", "!~"}
-	vals := []string{"x", "", "x|y"}
+	vals := []string{"x", "", "x|y", "x|", ".*"} // the last two: regular expressions that are not empty and match the empty string
 	var ms []string
 	for _, k := range keys {
 		for _, t := range types {
@@ -42,6 +42,11 @@ func pairSelectors() []string {
 		for j := i + 1; j < len(ms); j += 5 {
 			sels = append(sels, fmt.Sprintf("foo{%s,%s}", ms[i], ms[j]))
 		}
+	}
+	// one matcher listed twice next to another one
+	for i := 0; i < len(ms); i += 3 {
+		j := (i*7 + 11) % len(ms)
+		sels = append(sels, fmt.Sprintf("foo{%s,%s,%s}", ms[i], ms[i], ms[j]), fmt.Sprintf("foo{%s,%s}", ms[i], ms[(j+20)%len(ms)]))
 	}
 	// the metric name given as a matcher of every type, alone and with another matcher
 	for _, t := range types {
@@ -116,6 +121,16 @@ func subpairQuery(r *rand.Rand) string {
 	}
 	if len(sub) == len(ms) {
 		sub = sub[:len(sub)-1]
+	}
+	if r.Intn(8) == 0 {
+		// no subset at all: one selector repeats a matcher of the other and has one the other lacks,
+		// the other has one of its own (as many shared listings as the other has matchers)
+		m := func() string { return fmt.Sprintf(`%s%s"%s"`, pick(r, keys), pick(r, types), pick(r, vals)) }
+		m1, m2, m3 := m(), m(), m()
+		if m1 != m2 && m1 != m3 && m2 != m3 {
+			ms, sub = []string{m1, m1, m3}, []string{m1, m2}
+			r.Shuffle(len(ms), func(i, j int) { ms[i], ms[j] = ms[j], ms[i] })
+		}
 	}
 	name := pick(r, []string{"foo", "bar"})
 	render := func(ms []string) string {
